@@ -653,6 +653,11 @@ func (l *PartitionLog) sliceCachedSegment(seg segmentRange, entries []*IndexEntr
 	if end >= int64(len(data)) {
 		end = int64(len(data)) - 1
 	}
+	if start > end {
+		// the index points past the bytes we were given (a stale or truncated
+		// copy of the segment): an error, not a slice panic
+		return nil, fmt.Errorf("segment %d: index position %d beyond %d bytes of data", seg.baseOffset, start, len(data))
+	}
 	return append([]byte(nil), data[start:end+1]...), nil
 }
 
